@@ -12,6 +12,12 @@ HARNESSES = [
     S('S_once_wait', 'H_WAIT', ['_dispatch_once_wait'], 'real _dispatch_once_wait: returns only on DONE; sleeps only with the waiters bit published'),
     S('S_inline_fastpath', 'H_FAST', ['vp_client_once'], 'inline _dispatch_once_f from dispatch/once.h compiled as a client would: all 2^64 predicate values', stubs=['dispatch_once_f'], extra_tus=PROBE_TU),
 ]
+def Q(name, defs, note):
+    return H(name, 'h_once_q.c', ['dispatch_once_f', '__dispatch_tsd'], stubs=STUBS, blocking=['_dispatch_futex_wait'], visible=['_dispatch_futex_wake', '_dispatch_client_callout'], seq=True, nt=4, heap=256,
+             defines=['-DQ_MAXB=6'] + defs, unwind=5, probes=PR, timeout=1500, witness_any=True, note=note)
+HARNESSES += [Q('Q_once_3', ['-DQ_ROUNDS=2'], 'REAL interleavings (tier Q): 3 callers of dispatch_once_f on one predicate, futex sleeps until woken, 2 rounds x 3 threads x <=6 steps + deterministic tail')]
+HARNESSES[-1].tiers = ('quick', 'thorough')
+HARNESSES += [Q('Q_once_3_r3', ['-DQ_ROUNDS=3'], 'the same with 3 rounds')]; HARNESSES[-1].tiers = ('thorough',); HARNESSES[-1].timeout = 3000
 ASSUMPTIONS = ['gate words: 0, ~0 (DONE), or a thread id (30 bits, != caller) optionally with the waiters bit; other callers may move the word along the gate protocol (enter from 0, add waiters bit, publish DONE) at most twice',
                'futex wait returns at arbitrary moments (spurious wake-ups included) and the owner may have published DONE meanwhile; at most 3 sleeps',
                'the quiescent-counter variant of dispatch_once is not compiled on this platform']
